@@ -113,7 +113,7 @@ func genC08(g *simrt.Tape, tier string) any {
 			case v < 18:
 				act = ActSc{Kind: "yield", N: 1 + g.Draw(8)}
 			case v < 19:
-				act = ActSc{Kind: "sleep", Ms: []int{1, 100, 1000, 4000}[g.Draw(4)]}
+				act = ActSc{Kind: "sleep", Ms: []int{1, 100, 1000, 4000, 12000, 61000}[g.Draw(6)]}
 			case v < 20:
 				act = ActSc{Kind: "resp-msg"}
 			case v < 22:
